@@ -979,8 +979,12 @@ class error_residual_std(ErrorEstimator):
         if self.error_per_unit_step:
             n += 1
 
-        if error.shape not in [(1,), reference.shape]:
+        # The residual must consist of a single Taylor coefficient. (Otherwise, in isotropic
+        # models, 'd' residual coefficients would pass the shape check below by coincidence.)
+        num_outputs = len(zeros)
+        if num_outputs != 1 or error.shape not in [(1,), reference.shape]:
             msg = f"The error-estimate and reference have different shapes ({error.shape} vs {reference.shape})."
+            msg += f" The constraint has {num_outputs} output coefficient(s)."
             msg += (
                 " This is typically caused by using the residual-based error estimator"
             )
